@@ -5,7 +5,7 @@ DIR="${1:-/repo}"
 LOG="$(mktemp)"
 ( cd "$DIR" && CARGO_NET_OFFLINE=true cargo nextest run --workspace --no-fail-fast --offline ) >"$LOG" 2>&1
 SUMMARY="$(grep -E "^\s+Summary" "$LOG" | tail -1)"
-FAILS="$(grep -E "^\s+(FAIL|SIGABRT|SIGSEGV|TIMEOUT|LEAK)" "$LOG" | sed -E 's/^\s+\S+\s+\[[^]]*\]\s+(\([^)]*\)\s+)?//' | sort -u)"
+FAILS="$(grep -E "^\s+(FAIL|SIGABRT|SIGSEGV|TIMEOUT)" "$LOG" | sed -E 's/^\s+\S+\s+\[[^]]*\]\s+(\([^)]*\)\s+)?//' | sort -u)"
 echo "$SUMMARY"
 echo "failing: $(echo $FAILS | tr '\n' ' ')"
 PASSED="$(echo "$SUMMARY" | sed -nE 's/.* ([0-9]+) passed.*/\1/p')"
